@@ -53,9 +53,17 @@ fn plant_string(rng: &mut Rng, s: &mut Snapshot, packed: bool) {
         s.mem[a as usize] = w;
         a = a.wrapping_add(1);
     }
-    s.mem[a as usize] = 0;
-    // something after the terminator that must not be printed
-    s.mem[a.wrapping_add(1) as usize] = 0x0041;
+    // a packed string of odd length ends at the zero byte in bits [15:8] of its last word: what
+    // follows is not part of it, whether or not it is a x0000 word
+    let ended_by_pad = packed && len > 0 && s.mem[a.wrapping_sub(1) as usize] >> 8 == 0;
+    if ended_by_pad && rng.chance(1, 2) {
+        s.mem[a as usize] = 0x6564;
+        s.mem[a.wrapping_add(1) as usize] = 0;
+    } else {
+        s.mem[a as usize] = 0;
+        // something after the terminator that must not be printed
+        s.mem[a.wrapping_add(1) as usize] = 0x0041;
+    }
 }
 
 pub fn gen_state(rng: &mut Rng, instr: u16, variant: u64) -> (Snapshot, Vec<u8>) {
